@@ -196,6 +196,7 @@ more6 = {
 for k, v in more6.items():
     more[k] = more.get(k, "") + v
 more7 = {
+ "C06": " Round 7: every Write comes in a scratch buffer that is overwritten as soon as Write has returned (a Writer must not retain the caller's slice).",
  "C07": " Round 7: an input of 16 MiB + 4321 bytes (the size needs all four bytes of the header field).",
  "C08": " Round 7: every stream is also read by a consumer that takes exactly the declared number of bytes and closes without seeing the end of the stream (a success of Close must be as sound as after a complete read).",
  "C09": " Round 7: a body of a little more than 64 KiB.",
